@@ -15,6 +15,9 @@ and are called here with the harness's own convention: when such a call raises, 
 np.random in another way or makes another number of internal calls than the model transcribes, that is a correspondence
 break (`convention_break`): the bracket is evaluated on the public entry point against the best exact oracle, and only
 a failure THERE is claimed as a failing input.
+Source translator (DESIGN.md 3.2): `pre_build` re-translates every function from `estimate` downwards from the source text into
+lean/PersimVerif/Generated/SrcMGH.lean (harness/translator/py2lean_mgh.py, key "mgh") and Lean re-proves the obligations
+`src_<f>_eq_model` (generated definition = model, for all inputs); `run` first reports which of them no longer check.
 """
 import itertools, math, warnings
 import numpy as np
